@@ -92,3 +92,10 @@ def uses_protobuf_value(case):
 def sample_type_outside_root_module(case):
     api = _api(case)
     return uses_protobuf_value(case) or len({f["package"] for f in api.get("files", [])}) > 1
+
+
+def service_in_subpackage(case):
+    api = _api(case)
+    import os
+    root = os.path.commonprefix([f["package"] for f in api.get("files", [])]).rstrip(".")
+    return any(f["package"] != root and f.get("services") for f in api.get("files", []))
